@@ -1,10 +1,14 @@
 """Configuration of ./check for property C03 (loaded by tools/props.py)."""
 
-PROP = {'engine': 'gw',
- 'lean_props': ['MuscleModel.Props.C03'],
- 'harnesses': [{'name': 'gw',
-                'sources': ['harness/gw.cpp'],
-                'cflags': ['-std=gnu++11',
+PROP = {'assumptions': ['Messages are C01-well-formed, within the nesting limit, the receiver size limit and the 32-bit length field (frameOKZ)',
+                 'zlib is an opaque pair of functions with inflate(deflate(x)) = x (CodecOK)',
+                 'text lines contain no CR/LF/NUL; one terminator (CR LF, LF or CR) per stream',
+                 'raw/SLIP chunks are non-empty except in the last position of a Message (an empty chunk makes the sender drop the rest of its Message: open '
+                 'finding C03-empty-chunk)',
+                 'the link ends drained (grants suffice); both templating ends use the same cache size; template ids do not collide (F7, open)',
+                 'WebSocket payloads up to the receiver limit of 10 MB'],
+ 'engine': 'gw',
+ 'harnesses': [{'cflags': ['-std=gnu++11',
                            '-O1',
                            '-g',
                            '-w',
@@ -14,44 +18,49 @@ PROP = {'engine': 'gw',
                            '-DMUSCLE_ENABLE_ZLIB_ENCODING',
                            '-DMUSCLE_NO_EXCEPTIONS',
                            '-DMUSCLE_VERIF_HOOKS'],
+                'name': 'gw',
+                'sources': ['harness/gw.cpp'],
                 'timeout': 900}],
+ 'lean_props': ['MuscleModel.Props.C03'],
+ 'rule': 'op = one unit sequence sent through a REAL sender/receiver pair of one gateway kind (binary x 10 encodings incl. mid-stream switches, templating, '
+         'text, raw, SLIP, WebSocket client->server and server->client with slave gateway and the HTTP handshake whole / in halves / cut at any byte / byte by '
+         'byte, C mini/micro <-> C++) under one schedule (per call: maxBytes and the byte count of every Read/Write, 0 = would block; any interleaving of '
+         'queueing/output/input), then drained; plus `wire` (sender bytes), `feed` (arbitrary bytes into a receiver) and `share` (one reuse-tagged Message on '
+         'two links, every encoding).  The Lean model executes the same schedule step by step for binary/text/raw/SLIP (state after the scheduled part, '
+         'deliveries, error flag must agree), predicts deliveries and wire bytes for the rest.  Direct oracle on every run op: delivered units = sent units by '
+         'flattened bytes, no receiver error, link drains.  distinct = distinct case bodies',
  'trusted_base': ['hand-written Lean model of Message::Flatten/Unflatten/FlattenedSize and the public mutators (lean/MuscleModel/Wire)',
                   'type codes, protocol version, per-type wire sizes and the nesting limit are regenerated from /repo on every run (tools/extract_consts.cpp)',
-                  'hand-written Lean model of the call loops of MessageIOGateway (default encoding), PlainTextMessageIOGateway, RawDataMessageIOGateway, '
-                  'SLIPFramedDataMessageIOGateway and of the WebSocket frame header (lean/MuscleModel/Gateway)',
                   'gateway sizes (header 8, scratch buffer 2048, text read 2047, raw read 8192, SLIP bytes) are measured on the compiled code on every run '
                   '(tools/extract_consts.cpp)',
-                  'zlib inflate(deflate(x)) = x with matching history, SHA-1/Base64, std::random_device: not modelled; for the zlib encodings, the templating '
-                  'gateway, the WebSocket gateways and the C mini/micro gateways the model predicts only the final deliveries (= the units sent, by the '
-                  'theorems) and, where deterministic, the wire bytes; their segmentation behaviour is checked by the direct oracle on the real code only',
-                  'harness/gw.cpp ScheduledDataIO (a DataIO whose every Read/Write transfers exactly what the op line says)'],
- 'assumptions': ['Messages are C01-well-formed, within the nesting limit, the receiver size limit and the 32-bit length field (frameOK)',
-                 'text lines contain no CR/LF/NUL; one terminator (CR LF, LF or CR) per stream',
-                 'raw/SLIP chunks are non-empty except in the last position of a Message (an empty chunk makes the sender drop the rest of its Message: '
-                 'finding)',
-                 'the link ends drained (grants suffice); both templating ends use the same cache size; template ids do not collide (F7)',
-                 'WebSocket: server->client direction, handshake text delivered whole (client->server masking and a split handshake fail on the unchanged '
-                 'tree: findings)'],
- 'rule': 'op = one unit sequence sent through a REAL sender/receiver pair of one gateway kind (binary x 10 encodings incl. mid-stream switches, templating, '
-         'text, raw, SLIP, WebSocket with slave gateway, C mini/micro <-> C++) under one schedule (per call: maxBytes and the byte count of every Read/Write, '
-         '0 = would block; any interleaving of queueing/output/input), then drained; plus `wire` (sender bytes), `feed` (arbitrary bytes into a receiver) and '
-         '`share` (one tagged Message on two links).  The Lean model executes the same schedule step by step for binary/text/raw/SLIP (state after the '
-         'scheduled part, deliveries, error flag must agree), predicts deliveries and wire bytes for the rest.  Direct oracle on every run op: delivered units '
-         '= sent units by flattened bytes, no receiver error, link drains.  distinct = distinct case bodies'}
+                  'harness/gw.cpp ScheduledDataIO (a DataIO whose every Read/Write transfers exactly what the op line says)',
+                  'hand-written Lean model of the call loops of MessageIOGateway (plain and zlib-flagged frames, zlib = an opaque function pair), '
+                  'PlainTextMessageIOGateway, RawDataMessageIOGateway, SLIPFramedDataMessageIOGateway and of the WebSocket frame codec: CreateReplyFrame, '
+                  'header logic, unmasking (lean/MuscleModel/Gateway)',
+                  'zlib: the theorems assume only inflate(deflate(x)) = x for an opaque codec; the history dependence of the real deflate stream, SHA-1/Base64 '
+                  'and std::random_device are not modelled.  For the zlib encodings, the templating gateway, the WebSocket gateways and the C mini/micro '
+                  'gateways the model predicts the final deliveries (= the units sent, by the theorems), the wire bytes where deterministic, and for WebSocket '
+                  'receivers what a clean frame sequence (masked or not) delivers; their call-by-call segmentation behaviour is checked by the direct oracle '
+                  'on the real code']}
 
 TEXT = {'design_ref': 'DESIGN.md section 4, C03',
- 'technique': 'Lean 4 theorems (receiver state is a function of the consumed byte prefix for every maxBytes/grant schedule and every interleaving; byte '
-              'conservation of the senders; frame, text-line and SLIP round trips) over a hand-written model of the gateway call loops + differential '
-              'correspondence of model and real gateways on scheduled transports + direct delivered=sent oracle on the real code',
- 'text': 'Proved in Lean, once and generically, that a receiver whose single Read results refine a byte-wise machine ends every DoInput call (any maxBytes, '
-         'any per-Read byte counts incl. 0) exactly where feeding the consumed prefix byte by byte ends, and that after ANY interleaving of '
-         'AddOutgoingMessage/DoOutput/DoInput every sent byte is consumed, in transit or pending, in order; instantiated and fully proved for the binary '
-         'gateway (header/body state machine with the scratch-buffer branch; with C01: drained link => delivered = sent Messages, receiver idle), the text '
-         'line splitter (CR, LF, CRLF across reads), the raw gateway (both receive modes) and the SLIP codec (END/ESC state across reads, round trip).  The '
-         'same definitions are executed by the model driver against the real C++ gateways under explicit schedules; a direct oracle (delivered units = sent '
-         'units by flattened bytes, no error, link drains) runs on the real code for every gateway kind incl. the 10 encodings, templating, WebSocket with '
-         'slave gateway and the C mini/micro gateways.',
- 'note': 'Not proved, only validated by correspondence/oracle: zlib encodings (codec is outside the model), templating cache protocol, WebSocket receive '
-         'loop/handshake, C gateways call loops.  Hypotheses explicit in the statements (frameOK, clean lines, non-empty chunks, drained link).  Open findings '
-         'on the unchanged tree, kept as corpus/C03/gw-known-*.ops and listed in known_findings.json: F7, F24, WebSocket client mask byte order, WebSocket '
-         'handshake split by a would-block, empty raw/SLIP chunk drops the rest of its Message.'}
+ 'note': 'Not proved, only validated by correspondence/oracle: history dependence of the zlib streams, templating cache protocol, WebSocket receive loop and '
+         'handshake, C gateway call loops.  Hypotheses explicit in the statements (frameOKZ, CodecOK, clean lines, empty chunk ends a Message, drained link).  '
+         'Open findings kept as corpus/C03/gw-known-*.ops and listed in known_findings.json: F7 (template id collision), C03-empty-chunk.  Fixed and guarded '
+         'by corpus/C03/gw-regress-*.ops and mutants/C03/r*.diff: F24, WebSocket client mask byte order, WebSocket handshake under a would-block.',
+ 'technique': 'Lean 4 theorems (receiver state is a function of the consumed byte prefix for every maxBytes/grant schedule; any input chunking gives the same '
+              'units; any short-write schedule emits the same bytes; any interleaving; frame round trips plain and zlib-flagged over an opaque codec; '
+              'text-line, SLIP and WebSocket frame/mask/length round trips) over a hand-written model of the gateway call loops + differential correspondence '
+              'of model and real gateways on scheduled transports + direct delivered=sent oracle on the real code',
+ 'text': 'Proved in Lean, once and generically: a receiver whose single Read results refine a byte-wise machine ends every DoInput call (any maxBytes, any '
+         'per-Read byte counts incl. 0) exactly where feeding the consumed prefix byte by byte ends; two arbitrary call lists that empty the transport deliver '
+         'the same units; a sender writes, under any short-write schedule, a prefix of its pending bytes and exactly them once drained; after ANY interleaving '
+         'of AddOutgoingMessage/DoOutput/DoInput every sent byte is consumed, in transit or pending, in order.  Instantiated and fully proved for the binary '
+         'gateway (header/body state machine with the scratch-buffer branch; frames plain or zlib-flagged for any codec with inflate(deflate x)=x; with C01: '
+         'drained link => delivered = sent Messages, receiver idle), the text gateway (line splitter under any chunking, CR/LF/CRLF across reads, sender '
+         'within its recursion limit; drained => delivered lines = sent lines), the raw gateway (both receive modes) and the SLIP gateway (escape/unescape '
+         'round trip for all byte strings, END/ESC state across reads; drained => delivered frames = sent chunks); WebSocket frame kernels: mask involution '
+         'for all keys, the three length encodings, server and client frame encode/decode.  The same definitions are executed by the model driver against the '
+         'real C++ gateways under explicit schedules; a direct oracle (delivered units = sent units by flattened bytes, no error, link drains) runs on the '
+         'real code for every gateway kind incl. the 10 encodings, templating, WebSocket in both directions with slave gateway and split handshakes, and the C '
+         'mini/micro gateways.'}
